@@ -5,6 +5,7 @@ package pool
 import (
 	"fmt"
 	"runtime"
+	"sync/atomic"
 	"time"
 )
 
@@ -36,7 +37,18 @@ func VerifStress(name string) (reproduced bool, what string) {
 		go func() {
 			for k := 0; k < calls; k++ {
 				if search {
-					res := p.Search(c, func() interface{} { return 1 })
+					// vary how long a candidate takes: instant, yielding, or long enough for all workers to be inside
+					// the task at once (several successes in the same window)
+					variant := iter % 3
+					res := p.Search(c, func() interface{} {
+						switch variant {
+						case 1:
+							runtime.Gosched()
+						case 2:
+							time.Sleep(200 * time.Microsecond)
+						}
+						return 1
+					})
 					for i, r := range res {
 						if r == nil {
 							done <- fmt.Sprintf("Search result %d is nil", i)
@@ -44,13 +56,44 @@ func VerifStress(name string) (reproduced bool, what string) {
 						}
 					}
 				} else {
-					res := p.Parallelize(c, func(i int) interface{} { return i })
+					variant := iter % 3
+					res := p.Parallelize(c, func(i int) interface{} {
+						switch variant {
+						case 1:
+							runtime.Gosched()
+						case 2:
+							time.Sleep(200 * time.Microsecond)
+						}
+						return i
+					})
 					for i, r := range res {
 						if r != i {
 							done <- fmt.Sprintf("Parallelize result %d is %v", i, r)
 							return
 						}
 					}
+				}
+			}
+			// a lost worker does not necessarily hang a later call (the remaining workers take over): check that all w
+			// workers can still be busy at the same time
+			if w > 1 {
+				var arrived int64
+				all := make(chan struct{})
+				missing := int64(0)
+				p.Parallelize(w, func(i int) interface{} {
+					if atomic.AddInt64(&arrived, 1) == int64(w) {
+						close(all)
+					}
+					select {
+					case <-all:
+					case <-time.After(500 * time.Millisecond):
+						atomic.StoreInt64(&missing, 1)
+					}
+					return i
+				})
+				if atomic.LoadInt64(&missing) == 1 {
+					done <- fmt.Sprintf("a worker was lost: %d tasks can no longer run at the same time on %d workers", w, w)
+					return
 				}
 			}
 			done <- ""
